@@ -74,7 +74,8 @@ func streamRoute(c *ctx) {
 		oap := netip.MustParseAddrPort(udps[o].addr())
 		devices = append(devices, uhppote.Device{DeviceID: serial + 100000, Address: types.ControllerAddrFrom(oap.Addr(), oap.Port()), Protocol: "udp"})
 		bap := netip.MustParseAddrPort(udps[bcast].addr())
-		u := uhppote.NewUHPPOTE(types.BindAddrFrom(netip.MustParseAddr("127.0.0.1"), uint16(bindPort)), types.BroadcastAddrFrom(bap.Addr(), bap.Port()),
+		// the bind ADDRESS is one no responder lives on and not the one the kernel would pick by itself
+		u := uhppote.NewUHPPOTE(types.BindAddrFrom(netip.MustParseAddr("127.0.0.9"), uint16(bindPort)), types.BroadcastAddrFrom(bap.Addr(), bap.Port()),
 			types.ListenAddrFrom(netip.MustParseAddr("127.0.0.1"), 60001), T, devices, false)
 		_, err := u.GetCardByID(serial, 424242)
 		time.Sleep(20 * time.Millisecond)
@@ -99,7 +100,7 @@ func streamRoute(c *ctx) {
 				srcOK = "source-port-bound"
 			}
 		}
-		if !strings.HasPrefix(src, "127.0.0.1:") {
+		if !strings.HasPrefix(src, "127.0.0.9:") {
 			srcOK = "source-address-other"
 		}
 		res := "ok"
@@ -141,7 +142,7 @@ func streamRListen(c *ctx) {
 				}
 				time.Sleep(time.Millisecond)
 			}
-			k := 3 + r.Intn(6)
+			k := 4 + r.Intn(5)
 			want := []uint32{}
 			bad := 0
 			senders := []net.Conn{}
@@ -159,6 +160,8 @@ func streamRListen(c *ctx) {
 				kind := r.Intn(5)
 				if cycle == 0 && i < 3 {
 					kind = []int{4, 2, 5}[i] // every run: over-long datagrams (valid event + 1 / + 64 bytes), which must be errors
+				} else if cycle == 0 && i == 3 {
+					kind = 6 // ... and a zero-length datagram
 				}
 				switch kind {
 				case 0:
@@ -169,6 +172,9 @@ func streamRListen(c *ctx) {
 					bad++
 				case 5:
 					s.Write(append(append([]byte{}, b...), b...))
+					bad++
+				case 6:
+					s.Write([]byte{})
 					bad++
 				case 1:
 					b[0] = 0x19
@@ -246,10 +252,11 @@ func streamRDiscover(c *ctx) {
 			if r.Chance(1, 6) {
 				d = T + slack + time.Duration(r.Intn(50))*time.Millisecond // after the window
 			}
-			plan = append(plan, planned{d, uint32(6000001 + r.Intn(3)), rng.Pick(r, "valid", "valid", "valid", "short", "wrong-code", "bad-bcd", "long", "long64")})
+			plan = append(plan, planned{d, uint32(6000001 + r.Intn(3)), rng.Pick(r, "valid", "valid", "valid", "short", "wrong-code", "bad-bcd", "long", "long64", "empty")})
 		}
 		if n == 0 { // every run: over-long datagrams whose first 64 bytes are a valid reply, between two valid replies
-			plan = []planned{{5 * time.Millisecond, 6000001, "valid"}, {12 * time.Millisecond, 6000002, "long"}, {20 * time.Millisecond, 6000003, "long64"}, {28 * time.Millisecond, 6000002, "valid"}}
+			plan = []planned{{5 * time.Millisecond, 6000001, "valid"}, {12 * time.Millisecond, 6000002, "long"}, {20 * time.Millisecond, 6000003, "long64"}, {28 * time.Millisecond, 6000002, "valid"},
+				{36 * time.Millisecond, 6000001, "empty"}, {44 * time.Millisecond, 6000003, "valid"}}
 		}
 		sort.SliceStable(plan, func(i, j int) bool { return plan[i].delay < plan[j].delay })
 		rs := newUDPResponder("127.0.0.1", func(req []byte) []step {
@@ -269,6 +276,8 @@ func streamRDiscover(c *ctx) {
 					b = append(b, 0x00)
 				case "long64":
 					b = append(b, b...)
+				case "empty":
+					b = b[:0]
 				}
 				out = append(out, step{p.delay, b})
 			}
